@@ -15,6 +15,7 @@
 import LLFreeV.Proofs.ClassAdm
 import LLFreeV.Model.Policies
 import LLFreeV.Proofs.GenTree
+import LLFreeV.Proofs.GenPolicy
 namespace LLFree.C13
 open LLFree
 
